@@ -4,7 +4,7 @@ from harness.props import c01 as B
 
 ID = "C15"
 ENTRY = "SearchArray.termfreqs(list[str], slop=s)"
-LEVEL = "other"
+LEVEL = "proof"
 RULE = ("sparse and dense corpora, documents from a few to several hundred tokens, phrases of 2..6 terms, slop 1..40; exact-"
         "match documents, near-miss documents (one term missing, terms outside the window, reversed order), documents with "
         "the terms in order inside a window; for each document the real answer is compared with the line-level Coq model of "
@@ -13,10 +13,12 @@ RULE = ("sparse and dense corpora, documents from a few to several hundred token
         "and one near-miss document. Distinct by input hash.")
 TRUSTED = B.TRUSTED
 ASSUMPTIONS = B.ASSUMPTIONS + ["phrases of at most 64 terms (curr_idx capacity)"]
-EXPLANATION = ("Theorems (Props/C15.v, closed): one entry per row; a match contains every term. The exact-match and window "
-               "clauses are not proved: level `other`. The model (Span/Span.v) is a faithful transliteration incl. the "
-               "512-slot table, compaction, the give-up path and the min-popcount fallback; all clauses are decided on "
-               "generated inputs by the spec oracle (Span/Span_Spec.v) on both model and implementation.")
+EXPLANATION = ("Theorems (Props/C15.v, closed): one entry per row; a match contains every term; exact matches and in-order "
+               "windows (length + slop <= 18) match whenever the phrase-term positions of the document are pairwise "
+               "distinct modulo 64; false without that proviso (C15_exact_match_refuted = known finding D27). The model "
+               "(Span/Span.v) is a line-level transliteration incl. the 512-slot table, compaction, the give-up path and "
+               "the min-popcount fallback; all clauses are also decided on generated inputs by the spec oracle "
+               "(Span/Span_Spec.v) on both model and implementation.")
 
 
 def gen(rng, tier):
